@@ -90,6 +90,43 @@ impl<T> SyncResultReceiver<T> {
     }
 }
 
+/// Owns the delivery of one operation's result.  The operation's response handler completes it; if
+/// the operation is instead dropped without ever being handled (it was still queued when the client's
+/// event loop ended), dropping the guard delivers a failure so that the caller is never left waiting.
+#[cfg_attr(not(feature="threaded"), allow(dead_code))]
+pub(crate) struct SyncCompletionGuard<T> {
+    deliver: Mutex<Option<Box<dyn FnOnce(GneissResult<T>) + Send + Sync>>>
+}
+
+#[cfg_attr(not(feature="threaded"), allow(dead_code))]
+impl<T> SyncCompletionGuard<T> {
+    pub(crate) fn new(deliver: Box<dyn FnOnce(GneissResult<T>) + Send + Sync>) -> Arc<Self> {
+        Arc::new(SyncCompletionGuard { deliver: Mutex::new(Some(deliver)) })
+    }
+
+    /// Delivers the result; only the first completion (or the drop) delivers anything.
+    pub(crate) fn complete(&self, value: GneissResult<T>) {
+        let deliver = self.deliver.lock().unwrap().take();
+        if let Some(deliver) = deliver {
+            deliver(value);
+        }
+    }
+
+    /// The caller has been told about the failure some other way; deliver nothing.
+    pub(crate) fn disarm(&self) {
+        self.deliver.lock().unwrap().take();
+    }
+}
+
+impl<T> Drop for SyncCompletionGuard<T> {
+    fn drop(&mut self) {
+        let deliver = match self.deliver.get_mut() { Ok(deliver) => deliver.take(), Err(_) => None };
+        if let Some(deliver) = deliver {
+            deliver(Err(crate::error::GneissError::new_client_closed()));
+        }
+    }
+}
+
 #[cfg_attr(not(feature="threaded"), allow(dead_code))]
 pub(crate) fn new_sync_result_pair<T>() -> (SyncResultReceiver<T>, SyncResultSender<T>) {
     let lock = Arc::new(Mutex::new(None));
